@@ -219,7 +219,8 @@ def gen_case(rng, stream):
 # ----------------------------------------------------------------------------------------------------------------------
 def oracle_bom(data: bytes):
     """BOM table of the documentation. A UTF-16 BOM is one followed by a code unit other than 00 00 (FF FE 00 00 is the
-    UTF-32LE mark); the code's further demand that four bytes be present is NOT part of the statement."""
+    UTF-32LE mark), whatever the length of the input: b"\xff\xfe" alone is an empty UTF-16 document (the unrepaired code
+    also demanded len(data) >= 4 — fixes/C07-utf16-bom-short-input.diff)."""
     if data[:2] == b"\xfe\xff" and data[2:4] != b"\x00\x00":
         return data[2:], "utf-16be"
     if data[:2] == b"\xff\xfe" and data[2:4] != b"\x00\x00":
@@ -440,11 +441,8 @@ def short(r):
 
 
 def kf_of(c, what):
-    """Known-finding classifier, from the case alone."""
-    if "markup_hex" in c:
-        m = bytes.fromhex(c["markup_hex"])
-        if len(m) < 4 and m[:2] in (b"\xff\xfe", b"\xfe\xff"):
-            return "C07-utf16-bom-short-input"
+    """Known-finding classifier, from the case alone. C07 has no open known finding: the short-input UTF-16 BOM
+    defect (C07-utf16-bom-short-input) is repaired, a fixed entry suppresses nothing, so every failure is a VIOLATION."""
     return None
 
 
